@@ -164,6 +164,23 @@ CHECKS = {
                 "matching is exercised through C01/C16 runs, amino-acid effect inference is not modelled.",
         "technique": "Lean 4 proof (list surgery under reverse complement) + exhaustive per-variant evaluation and differential correspondence with Gene",
     },
+    "C09": {
+        "text": "Lean model of the whole catalogue construction (_init_regions, _init_alleles, _init_partials: mutation intake with first-wins "
+                "metadata on top of the C08 coordinate model, structural configurations with freezekey merging and min-name renaming, grouping "
+                "by (structure, sorted core set), unique naming with label fallback and ':n' suffix, fusion partials, duplicate-minor removal "
+                "with alias table). Machine-checked for every key function and input list about the grouping fold used for majors and for "
+                "duplicate minors: groups have pairwise different keys, every member has its group's key, all members together are a permutation "
+                "of the input (each database allele in exactly one major, no loss); core/partial variant sets are filters (membership = "
+                "conjunction). Tie: the model's catalogue (majors, minors, variant sets, configurations with copy-number vectors, alias table, "
+                "regions, mutation metadata) equals the real Gene for toy + shipped databases x 2 builds and for generated databases with "
+                "collisions; oracle on the real Gene: reachability, single owner, distinct keys, functional split, partial = restriction, "
+                "configurations exist, equality between builds in RefSeq terms (under the evaluated hypothesis that every variant is mapped in "
+                "both builds).",
+        "design_ref": "DESIGN.md section 4 (C09)",
+        "note": "PARTIAL at theorem level: name injectivity and the effect of dict overwrites/partials are decided per database by the "
+                "correspondence and the oracle, not by theorems. One known finding (insertion on a region boundary, opposite strands).",
+        "technique": "Lean 4 proof (fold invariants: distinct keys, membership, permutation) + full-catalogue differential correspondence with Gene",
+    },
 }
 
 NOT_YET = "check not built yet (work in progress; see DESIGN.md section 9 build order)"
